@@ -65,6 +65,8 @@ impl impl_details::CacheImplDetails for MemoryStore {
         if record.header.timestamp + (record.header.time_to_live as u64) > current_time {
             return false;
         }
+        #[cfg(memcrs_verif)]
+        crate::verif::emit("store.expire.decided", 0, 0);
         // remove only if the entry that is stored now is (still) expired: a
         // concurrent set may have replaced the record this decision was based on
         self.memory.remove_if(key, |_key, stored| {
@@ -89,6 +91,8 @@ impl Cache for MemoryStore {
                     if key_value.header.cas != record.header.cas {
                         Err(CacheError::KeyExists)
                     } else {
+                        #[cfg(memcrs_verif)]
+                        crate::verif::emit("store.set.cas_checked", record.header.cas, 0);
                         record.header.cas = self.get_cas_id();
                         record.header.timestamp = self.timer.timestamp();
                         let cas = record.header.cas;
